@@ -484,3 +484,191 @@ Proof.
 Qed.
 
 End LitRun.
+
+(* ------------------------------------------------------------------ 2. the sugared sheet, call by call *)
+Lemma loop_exit_ctx tol c x idx c3 c' :
+  (c3 = c \/ exists e m, c3 = bind_loop c x idx e m) ->
+  restore_loop tol c3 x idx (cget c x) (saved_idx c idx) = Some c' -> c' = c.
+Proof.
+  intros [->|[e [m ->]]] H.
+  - exact (restore_loop_unbound _ _ _ _ _ H).
+  - exact (restore_loop_bound _ _ _ _ _ _ _ H).
+Qed.
+
+Section Unroll.
+Variable pol : undefined_policy.
+Variable tol : bool.
+Variable rows : list raw.
+Notation PB := (parse_block pol ScopeRestore EmptySkip tol rows).
+Notation DS := (ds pol).
+
+Lemma next_row_some s omit s1 orow r :
+  nth_error rows (p_pos s) = Some r ->
+  next_row pol rows s omit = ROk (s1, orow) ->
+  exists row e1, orow = Some row
+    /\ (if omit then ROk (mkI (rw_kind r) true [] [] [] []) else instantiate pol (p_ctx s) r) = ROk row
+    /\ p_pos s1 = S (p_pos s) /\ p_ctx s1 = p_ctx s /\ p_log s1 = e1 ++ p_log s /\ rtoks e1 = [].
+Proof.
+  intros Hn. unfold next_row. rewrite Hn. destruct omit.
+  - intros H. inversion H; subst. eexists. exists []. repeat split.
+  - destruct (instantiate pol (p_ctx s) r) as [i|]; intros H; inversion H; subst.
+    exists i, [EvInst (p_pos s)]. repeat split.
+Qed.
+
+(* what the central lemma says of one call with fuel [f] *)
+Definition unroll_at (f : nat) : Prop :=
+  forall s bt omit s',
+    PB f s bt omit = ROk s' ->
+    exists out evs,
+      DS f (skipn (p_pos s) rows) (p_ctx s) bt omit = ROk (out, skipn (p_pos s') rows)
+      /\ p_log s' = evs ++ p_log s
+      /\ LitSem out (rtoks evs)
+      /\ (omit = true -> out = []).
+
+(* the iterations of one loop: the k-th body call re-reads the rows from the bookmark under the context
+   in which the previous element is still bound; rebinding gives the lexically extended context *)
+Lemma iter_ok f (IHf : unroll_at f) bookmark c x idx :
+  forall elems n st st',
+    (p_ctx st = c \/ exists e m, p_ctx st = bind_loop c x idx e m) ->
+    loop_iter (fun st0 => PB f st0 BFor false) bookmark x idx elems n st = ROk st' ->
+    exists outs evs,
+      ds_iter (fun c' => DS f (skipn bookmark rows) c' BFor false) c x idx elems n (skipn (p_pos st) rows)
+      = ROk (outs, skipn (p_pos st') rows)
+      /\ p_log st' = evs ++ p_log st
+      /\ LitSem outs (rtoks evs).
+Proof.
+  induction elems as [|e more IH]; intros n st st' Hinv H; cbn [loop_iter ds_iter] in H |- *.
+  - inversion H; subst. exists [], []. repeat split. constructor.
+  - destruct (PB f (mkP bookmark (bind_loop (p_ctx st) x idx e n) (EvEnter BFor false :: p_log st)) BFor false) as [st1|] eqn:E1; [|discriminate].
+    assert (Hb : bind_loop (p_ctx st) x idx e n = bind_loop c x idx e n).
+    { destruct Hinv as [->|[e0 [m0 ->]]]; [reflexivity|apply bind_loop_twice]. }
+    pose proof (ctx_preserved _ _ _ _ _ _ _ _ _ E1) as Hc1. cbn [p_ctx] in Hc1. rewrite Hb in Hc1.
+    destruct (IHf _ _ _ _ E1) as [out1 [evs1 [Hd1 [Hl1 [Hs1 _]]]]]. cbn [p_pos p_ctx p_log] in Hd1, Hl1.
+    rewrite Hb in Hd1. rewrite Hd1.
+    destruct (IH (S n) st1 st' (or_intror (ex_intro _ e (ex_intro _ n Hc1))) H) as [out2 [evs2 [Hd2 [Hl2 Hs2]]]].
+    rewrite Hd2. exists (out1 ++ out2), (evs2 ++ evs1 ++ [EvEnter BFor false]). repeat split.
+    + rewrite Hl2, Hl1, <- !app_assoc. reflexivity.
+    + rewrite !rtoks_app. cbn [rtoks rev app toks]. apply LitSem_app; assumption.
+Qed.
+
+Theorem unroll_ok : forall f, unroll_at f.
+Proof.
+  induction f as [|f IH]; intros s bt omit s' H; cbn [parse_block] in H; [discriminate|].
+  destruct (next_row pol rows s omit) as [[s1 orow]|] eqn:En; [|discriminate].
+  destruct (nth_error rows (p_pos s)) as [r|] eqn:Hn.
+  2:{ (* the sheet is exhausted *)
+      unfold next_row in En. rewrite Hn in En. inversion En; subst. cbn [option_map] in H.
+      rewrite (skipn_nth_none _ _ Hn). cbn [ds].
+      destruct (end_of_block bt None) as [[|]|]; try discriminate. inversion H; subst.
+      exists [], []. rewrite (skipn_nth_none _ _ Hn). repeat split. constructor. }
+  destruct (next_row_some _ _ _ _ _ Hn En) as [row [e1 [-> [Hrow [Hp1 [Hc1 [Hl1 Ht1]]]]]]].
+  rewrite (skipn_nth_some _ _ _ Hn). cbn [ds option_map] in H |- *. rewrite Hrow.
+  rewrite <- Hp1.
+  destruct (end_of_block bt (Some (i_kind row))) as [[|]|] eqn:Ee; [| |discriminate].
+  { inversion H; subst. exists [], e1. repeat split; [exact Hl1|rewrite Ht1; constructor]. }
+  (* a nested call, and the call that continues the current block *)
+  assert (Hnest : forall X b o1 s2, PB f X b o1 = ROk s2 -> p_ctx X = p_ctx s ->
+            exists out2 evs2,
+              DS f (skipn (p_pos X) rows) (p_ctx s) b o1 = ROk (out2, skipn (p_pos s2) rows)
+              /\ p_log s2 = evs2 ++ p_log X /\ LitSem out2 (rtoks evs2) /\ (o1 = true -> out2 = [])
+              /\ p_ctx s2 = p_ctx s).
+  { intros X b o1 s2 HX HcX. destruct (IH _ _ _ _ HX) as [o2 [ev2 [Hd [Hl [Hs Ho]]]]].
+    exists o2, ev2. rewrite <- HcX. repeat split; try assumption.
+    exact (ctx_preserved _ _ _ _ _ _ _ _ _ HX). }
+  destruct (omit || negb (i_inc row)) eqn:Esk.
+  - (* skipped *)
+    assert (Hskipblock : forall b,
+              match PB f (log s1 (EvEnter b true)) b true with ROk s2 => PB f s2 bt omit | RErr e => RErr e end = ROk s' ->
+              exists out evs,
+                match DS f (skipn (p_pos s1) rows) (p_ctx s) b true with
+                | ROk (_, rest2) => DS f rest2 (p_ctx s) bt omit
+                | RErr e => RErr e
+                end = ROk (out, skipn (p_pos s') rows)
+                /\ p_log s' = evs ++ p_log s /\ LitSem out (rtoks evs) /\ (omit = true -> out = [])).
+    { intros b Hm. destruct (PB f (log s1 (EvEnter b true)) b true) as [s2|] eqn:E2; [|discriminate].
+      destruct (Hnest _ _ _ _ E2 Hc1) as [o2 [ev2 [Hd2 [Hl2 [Hs2 [Ho2 Hc2]]]]]]. cbn [log p_pos p_log] in Hd2, Hl2.
+      destruct (Hnest _ _ _ _ Hm Hc2) as [o3 [ev3 [Hd3 [Hl3 [Hs3 [Ho3 _]]]]]].
+      rewrite Hd2, Hd3. exists o3, (ev3 ++ ev2 ++ [EvEnter b true] ++ e1). repeat split.
+      - rewrite Hl3, Hl2, Hl1, <- !app_assoc. reflexivity.
+      - rewrite (Ho2 eq_refl) in Hs2. apply LitSem_nil_inv in Hs2.
+        rewrite !rtoks_app, Ht1, Hs2. cbn [rtoks rev app toks]. exact Hs3.
+      - exact Ho3. }
+    assert (Hskiprow : PB f s1 bt omit = ROk s' ->
+              exists out evs, DS f (skipn (p_pos s1) rows) (p_ctx s) bt omit = ROk (out, skipn (p_pos s') rows)
+                /\ p_log s' = evs ++ p_log s /\ LitSem out (rtoks evs) /\ (omit = true -> out = [])).
+    { intros Hm. destruct (Hnest _ _ _ _ Hm Hc1) as [o3 [ev3 [Hd3 [Hl3 [Hs3 [Ho3 _]]]]]].
+      exists o3, (ev3 ++ e1). repeat split; try assumption.
+      - rewrite Hl3, Hl1, <- app_assoc. reflexivity.
+      - rewrite rtoks_app, Ht1. exact Hs3. }
+    destruct (i_kind row); [exact (Hskipblock _ H)|exact (Hskiprow H)|exact (Hskipblock _ H)|exact (Hskiprow H)|exact (Hskiprow H)].
+  - (* not skipped *)
+    apply orb_false_iff in Esk. destruct Esk as [-> Hinc].
+    destruct (i_kind row) eqn:Ek.
+    + (* begin_for *)
+      destruct (i_vars row) as [|x more]; [discriminate|]. destruct x as [|x0 xr]; [discriminate|].
+      set (x := x0 :: xr) in *. unfold idx_of.
+      set (idx := match more with i :: _ => match i with [] => None | _ => Some i end | [] => None end) in *.
+      destruct (loop_iter (fun st => PB f st BFor false) (p_pos s1) x idx (i_iter row) 0 (log s1 EvPush)) as [s3|] eqn:E3; [|discriminate].
+      assert (Hinv3 : p_ctx s3 = p_ctx s \/ exists e m, p_ctx s3 = bind_loop (p_ctx s) x idx e m).
+      { refine (loop_iter_ctx _ _ x idx (p_ctx s) _ _ _ (log s1 EvPush) _ (or_introl Hc1) E3).
+        intros st st' Hb. exact (ctx_preserved _ _ _ _ _ _ _ _ _ Hb). }
+      destruct (iter_ok f IH (p_pos s1) (p_ctx s) x idx (i_iter row) 0 (log s1 EvPush) s3 (or_introl Hc1) E3)
+        as [bodies [evsI [HdI [HlI HsI]]]]. cbn [log p_pos p_log] in HdI, HlI.
+      rewrite HdI.
+      (* the body of a loop over nothing is read with omit_content *)
+      assert (Hskip : exists s3' evo,
+                 match i_iter row with [] => PB f (log s3 (EvEnter BFor true)) BFor true | _ => ROk s3 end = ROk s3'
+                 /\ match i_iter row with [] => DS f (skipn (p_pos s1) rows) (p_ctx s) BFor true | _ => ROk ([], skipn (p_pos s3) rows) end
+                    = ROk ([], skipn (p_pos s3') rows)
+                 /\ p_log s3' = evo ++ p_log s3 /\ rtoks evo = [] /\ p_ctx s3' = p_ctx s3).
+      { destruct (i_iter row) as [|e0 el].
+        - cbn [loop_iter] in E3. inversion E3; subst s3.
+          destruct (PB f (log (log s1 EvPush) (EvEnter BFor true)) BFor true) as [s3'|] eqn:Eo; [|discriminate].
+          destruct (Hnest _ _ _ _ Eo Hc1) as [oo [evo [Hdo [Hlo [Hso [Hoo Hco]]]]]]. cbn [log p_pos p_log] in Hdo, Hlo.
+          rewrite (Hoo eq_refl) in Hdo, Hso. apply LitSem_nil_inv in Hso.
+          exists s3', (evo ++ [EvEnter BFor true]). repeat split; try assumption.
+          + rewrite Hlo, <- app_assoc. reflexivity.
+          + rewrite rtoks_app, Hso. reflexivity.
+          + rewrite Hco. symmetry. exact Hc1.
+        - exists s3, []. repeat split. }
+      destruct Hskip as [s3' [evo [Eo [Hdo [Hlo [Hto Hco]]]]]]. rewrite Eo in H. rewrite Hdo.
+      cbn [log p_ctx p_pos p_log saved_of] in H.
+      assert (Hrest : forall c', restore_loop tol (p_ctx s3') x idx (cget (p_ctx s1) x) (saved_idx (p_ctx s1) idx) = Some c' -> c' = p_ctx s).
+      { intros c' Hr. rewrite Hco, Hc1 in Hr. exact (loop_exit_ctx _ _ _ _ _ _ Hinv3 Hr). }
+      unfold restore_loop, saved_idx in Hrest.
+      destruct (crestore tol (p_ctx s3') x (cget (p_ctx s1) x)) as [c1|] eqn:Ec1; [|discriminate].
+      assert (Hfin : forall c2, c2 = p_ctx s -> PB f (mkP (p_pos s3') c2 (EvEnd (i_id row) :: p_log s3')) bt false = ROk s' ->
+                exists out evs,
+                  match DS f (skipn (p_pos s3') rows) (p_ctx s) bt false with
+                  | ROk (out, rem) => ROk (lit_row KBeginBlock (i_id row) (i_text row) :: bodies ++ end_row :: out, rem)
+                  | RErr e => RErr e
+                  end = ROk (out, skipn (p_pos s') rows)
+                  /\ p_log s' = evs ++ p_log s /\ LitSem out (rtoks evs) /\ (false = true -> out = [])).
+      { intros c2 -> Hm. destruct (Hnest _ _ _ _ Hm eq_refl) as [o3 [ev3 [Hd3 [Hl3 [Hs3 _]]]]]. cbn [p_pos p_log] in Hd3, Hl3.
+        rewrite Hd3. eexists. exists (ev3 ++ [EvEnd (i_id row)] ++ evo ++ evsI ++ [EvPush] ++ e1). repeat split.
+        - rewrite Hl3, Hlo, HlI, Hl1, <- !app_assoc. reflexivity.
+        - rewrite !rtoks_app, Ht1, Hto. cbn [rtoks rev app toks]. rewrite ?app_nil_r, <- ?app_assoc. cbn [app]. constructor; assumption.
+        - discriminate. }
+      destruct idx as [i|].
+      * destruct (crestore tol c1 i (cget (p_ctx s1) i)) as [c2|] eqn:Ec2; [|discriminate].
+        exact (Hfin _ (Hrest _ eq_refl) H).
+      * exact (Hfin _ (Hrest _ eq_refl) H).
+    + destruct bt; cbn in Ee; discriminate.
+    + (* begin_block *)
+      destruct (PB f (log (log s1 EvPush) (EvEnter BBlock false)) BBlock false) as [s2|] eqn:E2; [|discriminate].
+      destruct (Hnest _ _ _ _ E2 Hc1) as [o2 [ev2 [Hd2 [Hl2 [Hs2 [_ Hc2]]]]]]. cbn [log p_pos p_log] in Hd2, Hl2.
+      destruct (Hnest _ _ _ _ H Hc2) as [o3 [ev3 [Hd3 [Hl3 [Hs3 _]]]]]. cbn [log p_pos p_log] in Hd3, Hl3.
+      rewrite Hd2, Hd3. eexists. exists (ev3 ++ [EvEnd (i_id row)] ++ ev2 ++ [EvEnter BBlock false; EvPush] ++ e1). repeat split.
+      * rewrite Hl3, Hl2, Hl1, <- !app_assoc. reflexivity.
+      * rewrite !rtoks_app, Ht1. cbn [rtoks rev app toks]. rewrite ?app_nil_r, <- ?app_assoc. cbn [app]. constructor; assumption.
+      * discriminate.
+    + destruct bt; cbn in Ee; discriminate.
+    + (* a plain row *)
+      destruct (Hnest _ _ _ _ H Hc1) as [o3 [ev3 [Hd3 [Hl3 [Hs3 _]]]]]. cbn [log p_pos p_log] in Hd3, Hl3.
+      rewrite Hd3. eexists. exists (ev3 ++ [EvRow (i_id row) (i_text row)] ++ e1). repeat split.
+      * rewrite Hl3, Hl1, <- !app_assoc. reflexivity.
+      * rewrite !rtoks_app, Ht1. cbn [rtoks rev app toks]. rewrite ?app_nil_r, <- ?app_assoc. cbn [app]. constructor; assumption.
+      * discriminate.
+Qed.
+
+End Unroll.
